@@ -921,3 +921,9 @@ V('c19-staging-extra-keyword', 'C19', 'C19.R13',
   ('pywbem/_cim_operations.py', "                method='InvokeMethod',\n                MethodName=MethodName,\n                ObjectName=ObjectName,\n                Params=Params,\n                **params)",
    "                method='InvokeMethod',\n                origin='api',\n                MethodName=MethodName,\n                ObjectName=ObjectName,\n                Params=Params,\n                **params)"),
   'keyword-collision')
+V('c19-toyaml-str-subclass', 'C19', 'C19.R14',
+  ('pywbem/_recorder.py', "            return str(obj)\n        if isinstance(obj, bool):", "            return obj\n        if isinstance(obj, bool):"),
+  'not-yaml-plain')
+V('c19-toyaml-cimfloat-object', 'C19', 'C19.R14',
+  ('pywbem/_recorder.py', "        if isinstance(obj, CIMFloat):\n            return float(obj)", "        if isinstance(obj, CIMFloat):\n            return obj"),
+  'not-yaml-plain')
